@@ -151,3 +151,48 @@ def repair_projection_past_deduplication():
 
 
 REPAIRS = {"projection_past_deduplication": repair_projection_past_deduplication}
+
+
+def select_spine_elided_calculation(s) -> bool:
+    """Cause test for KF-SELECT-SPINE-ELIDED-CALCULATION on one incoherent Select marker: the recorded
+    projection was applied directly to the skip target and simplified away Calculation node(s) whose
+    tag it drops, so Select.target bypasses nodes that Select.skip_to still contains."""
+    from lsst.daf.relation import Calculation, UnaryOperationRelation
+
+    if s.projection is None or s.has_sort:
+        return False
+    node = s.target
+    for present, recorded in ((s.has_slice, s.slice), (s.deduplication is not None, s.deduplication)):
+        if present:
+            if not (isinstance(node, UnaryOperationRelation) and node.operation == recorded):
+                return False
+            node = node.target
+    if isinstance(node, UnaryOperationRelation) and node.operation == s.projection:
+        node = node.target
+    elif s.projection.columns != node.columns:
+        return False
+    k, stripped = s.skip_to, 0
+    while (
+        isinstance(k, UnaryOperationRelation)
+        and isinstance(k.operation, Calculation)
+        and k.operation.tag not in s.projection.columns
+    ):
+        k = k.target
+        stripped += 1
+    return stripped > 0 and k is node
+
+
+@matcher("select_spine_elided_calculation")
+def _m_select_spine(pid, v, context):
+    if v.get("kind") != "select-incoherent":
+        return False
+    rel = _rel_of(context)
+    if rel is None:
+        return False
+    from lsst.daf.relation import sql
+
+    from . import walk
+    from .checks.c17 import select_incoherence
+
+    bad = [n for n in walk.walk(rel) if isinstance(n, sql.Select) and select_incoherence(n)]
+    return bool(bad) and all(select_spine_elided_calculation(n) for n in bad)
